@@ -150,6 +150,20 @@ UNextMultipleOf(a, b) == LET rem == DivRemUnchecked(a, b)[2]
                             ELSE LET d == USub(b, rem)  r == UAdd(a, d[1]) IN <<r[1], r[2], d[2]>>
 
 \* ---------------------------------------------------------------------------------------------
+\* shift wrappers (src/buint/overflowing.rs, checked.rs, src/bint/overflowing.rs, mod.rs): the amount is compared with
+\* BITS; out-of-range amounts are reduced with `rhs & (BITS - 1)` before the unsafe internal shift, whose contract is
+\* rhs < BITS.  Results: <<pattern, flag, the internal routine's precondition held>>.
+OvShl(a, rhs) == IF rhs >= W THEN <<ShlInternal(a, AndNat(rhs, W - 1)), TRUE, AndNat(rhs, W - 1) < W>>
+                 ELSE <<ShlInternal(a, rhs), FALSE, TRUE>>
+OvShrU(a, rhs) == IF rhs >= W THEN <<ShrPad(a, AndNat(rhs, W - 1), FALSE), TRUE, AndNat(rhs, W - 1) < W>>
+                  ELSE <<ShrPad(a, rhs, FALSE), FALSE, TRUE>>
+OvShrS(a, rhs) == LET sh == IF rhs >= W THEN AndNat(rhs, W - 1) ELSE rhs
+                  IN <<ShrPad(a, sh, IsNeg(a)), rhs >= W, sh < W>>
+CheckedShl(a, rhs) == IF rhs >= W THEN <<FALSE, Zero>> ELSE <<TRUE, ShlInternal(a, rhs)>>
+UnboundedShrS(a, rhs) == IF rhs >= W THEN (IF IsNeg(a) THEN NotArr(Zero) ELSE Zero) ELSE ShrPad(a, rhs, IsNeg(a))
+UnboundedShl(a, rhs) == IF rhs >= W THEN Zero ELSE ShlInternal(a, rhs)
+
+\* ---------------------------------------------------------------------------------------------
 \* counting loops (src/buint/mod.rs)
 RECURSIVE PopD(_)
 PopD(d) == IF d = 0 THEN 0 ELSE (d % 2) + PopD(d \div 2)
